@@ -343,6 +343,82 @@ fn run_field<F: FS>(ctx: &Arc<Ctx>) {
     ctx.report.set(&format!("C11_domain_{}", F::NAME), json!({"reduce_strings": strings.len(), "checked_values": near.len(), "roundtrip_values": all.len(), "ord_pairs": ns * ns}));
 }
 
+/// reader that hands over at most `step` bytes per `read` call
+#[cfg(feature = "ark")]
+pub struct Frag<'a>(pub &'a [u8], pub usize);
+#[cfg(feature = "ark")]
+impl<'a> ark_serialize::Read for Frag<'a> {
+    fn read(&mut self, buf: &mut [u8]) -> std::io::Result<usize> {
+        let n = buf.len().min(self.1).min(self.0.len());
+        buf[..n].copy_from_slice(&self.0[..n]);
+        self.0 = &self.0[n..];
+        Ok(n)
+    }
+}
+
+/// Stream shapes of the field deserialisers (environment answers of the reader, deviation-bounded):
+/// the encoding delivered whole, in fragments of `step` bytes (a short `read` is a legal answer),
+/// truncated after `cut` bytes (must be an error, never a value), or followed by trailing bytes
+/// (exactly NBYTES must be consumed). shape: 0 = fragments(step), 1 = truncated(cut), 2 = trailing.
+#[cfg(feature = "ark")]
+pub fn eval_stream_ark<F>(fld: &Fld, v: &BigUint, shape: u8, par: usize) -> Outcome
+where
+    F: FS + ark_ff::PrimeField,
+{
+    use ark_serialize::{CanonicalDeserialize, CanonicalDeserializeWithFlags, EmptyFlags};
+    let n = F::NBYTES;
+    let bytes = to_le_n(v, n);
+    let canonical = *v < fld.p;
+    let class = format!("{}/stream/{}/{}", F::NAME, ["fragments", "truncated", "trailing"][shape as usize], if canonical { "canonical" } else { "non-canonical" });
+    let case = || json!({"field": F::NAME, "kind": "stream_ark", "bytes": hex::encode(&bytes), "shape": shape, "par": par});
+    let want_full = if canonical { Some(v.clone()) } else { None };
+    match shape {
+        0 => {
+            for (name, r) in [
+                ("deserialize_compressed", F::deserialize_compressed(Frag(&bytes, par)).ok().map(|x| x.big())),
+                ("deserialize_uncompressed", F::deserialize_uncompressed(Frag(&bytes, par)).ok().map(|x| x.big())),
+                ("deserialize_compressed_unchecked", F::deserialize_compressed_unchecked(Frag(&bytes, par)).ok().map(|x| x.big())),
+                ("deserialize_with_flags<EmptyFlags>", F::deserialize_with_flags::<_, EmptyFlags>(Frag(&bytes, par)).ok().map(|x| x.0.big())),
+            ] {
+                if r != want_full {
+                    return Outcome::bad(class, mkv(F::NAME, &format!("{name} from a reader yielding {par} bytes per read"), case(), format!("{want_full:?}"), format!("{r:?}")));
+                }
+            }
+            // two elements back to back through one fragmented reader: both must come out right
+            let mut two = bytes.clone();
+            two.extend_from_slice(&bytes);
+            let mut rd = Frag(&two, par);
+            let a = F::deserialize_compressed(&mut rd).ok().map(|x| x.big());
+            let b = if a.is_some() { F::deserialize_compressed(&mut rd).ok().map(|x| x.big()) } else { None };
+            if a != want_full || b != want_full {
+                return Outcome::bad(class, mkv(F::NAME, &format!("two consecutive elements from a reader yielding {par} bytes per read"), case(), format!("{want_full:?} twice"), format!("{a:?}, {b:?}")));
+            }
+        }
+        1 => {
+            let cut = par.min(n - 1);
+            for (name, r) in [
+                ("deserialize_compressed", F::deserialize_compressed(&bytes[..cut]).ok().map(|x| x.big())),
+                ("deserialize_uncompressed", F::deserialize_uncompressed(&bytes[..cut]).ok().map(|x| x.big())),
+                ("deserialize_with_flags<EmptyFlags>", F::deserialize_with_flags::<_, EmptyFlags>(&bytes[..cut]).ok().map(|x| x.0.big())),
+            ] {
+                if r.is_some() {
+                    return Outcome::bad(class, mkv(F::NAME, &format!("{name} of a stream truncated after {cut} bytes"), case(), "error".into(), format!("{r:?}")));
+                }
+            }
+        }
+        _ => {
+            let mut ext = bytes.clone();
+            ext.extend_from_slice(&[0xA5; 7]);
+            let mut rd = &ext[..];
+            let r = F::deserialize_compressed(&mut rd).ok().map(|x| x.big());
+            if r != want_full || (r.is_some() && rd.len() != 7) {
+                return Outcome::bad(class, mkv(F::NAME, "deserialize_compressed with trailing bytes", case(), format!("{want_full:?}, 7 bytes left"), format!("{r:?}, {} bytes left", rd.len())));
+            }
+        }
+    }
+    Outcome::ok(class)
+}
+
 #[cfg(feature = "ark")]
 fn run_field_ark<F, const N: usize>(ctx: &Arc<Ctx>)
 where
@@ -358,6 +434,25 @@ where
     run_cases(ctx, "E3/C11-reduce-ark", false, strings.par_iter().map(|(l, b)| (F::NAME, *l, b)), |(_, l, b)| eval_reduce_ark::<F>(&fld, b, l), |(_, l, b)| (format!("{}|reduce_ark", F::NAME), json!({"field": F::NAME, "kind": "reduce_ark", "bytes": hex::encode(b), "content": l})));
     let near = near_values(&p, n, ctx.quick());
     run_cases(ctx, "E3/C11-checked-ark", false, near.par_iter().map(|v| (F::NAME, v)), |(_, v)| eval_checked_ark::<F, N>(&fld, v), |(_, v)| (format!("{}|checked_ark", F::NAME), json!({"field": F::NAME, "kind": "checked_ark", "bytes": hex::encode(to_le_n(v, n))})));
+    // stream shapes: 12 values (canonical: dense, p-1, 0, top-limb-only ...; non-canonical: p, p+1,
+    // all ones) x every fragment size 1..n, every truncation 0..n-1, trailing bytes
+    {
+        let lim = BigUint::one() << (8 * n);
+        let dense = BigUint::from_bytes_le(&(0..n).map(|i| (0x31 + 7 * i) as u8).collect::<Vec<u8>>()) % &p;
+        let vals: Vec<BigUint> = vec![dense.clone(), &p - 1u32, BigUint::zero(), BigUint::one(), (&p >> (8 * n - 16)) << (8 * n - 16), &dense >> 128usize, (&dense >> 128usize) << 128usize, (&p - 1u32) >> 1, p.clone(), &p + 1u32, &lim - 1u32, &dense + &p]
+            .into_iter().filter(|x| *x < lim).collect();
+        let mut work: Vec<(usize, u8, usize)> = vec![];
+        for vi in 0..vals.len() {
+            for step in 1..=n {
+                work.push((vi, 0, step));
+            }
+            for cut in 0..n {
+                work.push((vi, 1, cut));
+            }
+            work.push((vi, 2, 0));
+        }
+        run_cases(ctx, "E3/C11-stream-ark", false, work.par_iter().map(|w| (F::NAME, w.0, w.1, w.2)), |&(_, vi, sh, par)| eval_stream_ark::<F>(&fld, &vals[vi], sh, par), |&(_, vi, sh, par)| (format!("{}|stream_ark", F::NAME), json!({"field": F::NAME, "kind": "stream_ark", "bytes": hex::encode(to_le_n(&vals[vi], n)), "shape": sh, "par": par})));
+    }
     let small = s_small(&p, n, !ctx.quick());
     let limb = s_limb(&p, n, &[0, 0xFFFF_FFFF]);
     let all: Vec<&BigUint> = small.iter().chain(limb.iter()).collect();
@@ -375,7 +470,7 @@ pub fn run(ctx: &Arc<Ctx>) {
         run_field_ark::<Fr, 4>(ctx);
         run_field_ark::<Fp, 6>(ctx);
     }
-    ctx.report.rule(format!("E3/C11[{BUILD}]: per field: every length 0..=200 x 9 contents through the reducing parsers (LE{}); all N-byte values within 2^8 (quick) / 2^10 (thorough) of 0, p, 2^(8N), 2^k+-2 for every k, and every pattern of the spare top bits, through the checked parsers{}; all round trips on S_small + limb patterns; Ord/Eq/Hash on S_small^2; oracle = the integer the bytes denote", if cfg!(feature = "ark") { ", BE, From<BigUint>" } else { "" }, if cfg!(feature = "ark") { " (from_bytes_checked, from_bigint, From<BigInt>, deserialize_*, deserialize_with_flags<EmptyFlags|TEFlags|SWFlags>)" } else { " (from_bytes_checked)" }));
+    ctx.report.rule(format!("E3/C11[{BUILD}]: per field: every length 0..=200 x 9 contents through the reducing parsers (LE{}); all N-byte values within 2^8 (quick) / 2^10 (thorough) of 0, p, 2^(8N), 2^k+-2 for every k, and every pattern of the spare top bits, through the checked parsers{}; aliases s+kp whose word differences cancel under xor; stream shapes of the deserialisers (every fragment size, every truncation, trailing bytes; arkworks build); all round trips on S_small + limb patterns; Ord/Eq/Hash on S_small^2; oracle = the integer the bytes denote", if cfg!(feature = "ark") { ", BE, From<BigUint>" } else { "" }, if cfg!(feature = "ark") { " (from_bytes_checked, from_bigint, From<BigInt>, deserialize_*, deserialize_with_flags<EmptyFlags|TEFlags|SWFlags>)" } else { " (from_bytes_checked)" }));
     ctx.report.assume("C11: Display prints zero as the empty string (arkworks quirk mirrored by the crate); it round-trips through FromStr and is not treated as a violation");
 }
 
@@ -396,6 +491,8 @@ pub fn replay(case: &Value) -> (bool, Value) {
                 "reduce_ark" => Some(eval_reduce_ark::<$F>(&fld, &hx(&case["bytes"]), "replay")),
                 #[cfg(feature = "ark")]
                 "checked_ark" => Some(eval_checked_ark::<$F, $N>(&fld, &BigUint::from_bytes_le(&hx(&case["bytes"])))),
+                #[cfg(feature = "ark")]
+                "stream_ark" => Some(eval_stream_ark::<$F>(&fld, &BigUint::from_bytes_le(&hx(&case["bytes"])), case["shape"].as_u64().unwrap_or(0) as u8, case["par"].as_u64().unwrap_or(1) as usize)),
                 #[cfg(feature = "ark")]
                 "roundtrip_ark" => Some(eval_roundtrip_ark::<$F, $N>(&fld, &BigUint::from_bytes_le(&hx(&case["value"])))),
                 _ => None,
